@@ -79,22 +79,24 @@ def run(ctx):
             g = f1 == ("cmp", "Ne", fld(hdr, fi["header_magic"]), ("c", S.HEADER_MAGIC))
             ctx.check(g, "A2", "load:3:magic", "MagicNotFound is taken exactly when the stored magic != 0xE85250D6", A.site(e1.bb),
                       how=G.show(p1), why=G.show(p1))
-            # checksum: Ne(calc(stored m, a, l), stored checksum)
+            # checksum: the guard is  X != Y  with  X - Y == +-(magic + arch + length + checksum)  in Z/2^32
+            # (calc(m, a, l) != stored checksum, or m + a + l + c != 0, or any other wrapping rearrangement)
             g = False
             if p2 is not None and p2[0] == "cmp" and p2[1] == "Ne":
-                for (x, y) in ((p2[2], p2[3]), (p2[3], p2[2])):
-                    if N(y) == fld(hdr, fi["checksum"]):
-                        r = K.ring(x, 32)
-                        if r is not None:
-                            M = 1 << 32
-                            want = {G.strip(k): v for k, v in r.m.items()}
-                            names = {}
-                            for k, v in r.m.items():
-                                nk = N(k)
-                                names[repr(nk)] = v
-                            exp = {repr(fld(hdr, fi["header_magic"])): M - 1, repr(fld(hdr, fi["length"])): M - 1}
-                            archs = [repr(("discr", fld(hdr, fi["arch"]))), repr(("cast", "IntToInt", fld(hdr, fi["arch"]), "u32"))]
-                            g = r.c == 0 and all(names.get(k) == v for k, v in exp.items()) and any(names.get(a) == M - 1 for a in archs) and len(names) == 3
+                rx, ry = K.ring(p2[2], 32), K.ring(p2[3], 32)
+                if rx is not None and ry is not None:
+                    M = 1 << 32
+                    d = rx.add(ry, -1)
+                    names = {}
+                    for k, v in d.m.items():
+                        if v % M:
+                            names[repr(N(k))] = v % M
+                    words = [repr(fld(hdr, fi["header_magic"])), repr(fld(hdr, fi["length"])), repr(fld(hdr, fi["checksum"]))]
+                    archs = [repr(("discr", fld(hdr, fi["arch"]))), repr(("cast", "IntToInt", fld(hdr, fi["arch"]), "u32"))]
+                    arch_k = [a for a in archs if a in names]
+                    if d.c % M == 0 and len(names) == 4 and len(arch_k) == 1 and all(w in names for w in words):
+                        coefs = {names[w] for w in words} | {names[arch_k[0]]}
+                        g = coefs == {1} or coefs == {M - 1}
             ctx.check(g, "A2", "load:4:checksum",
                       "ChecksumMismatch is taken exactly when -(stored magic + arch + length) mod 2^32 != stored checksum, i.e. the four words do not sum to 0",
                       A.site(e2.bb), how=G.show(p2)[:300], why=G.show(p2)[:600])
